@@ -338,56 +338,8 @@ pub fn global_parse_float(
         Some(v) => interp.to_js_string(v),
         None => interp.intern(""),
     };
-    let string = string.as_str().to_string();
-    let s = string.trim();
-
-    if s.is_empty() {
-        return Ok(Guarded::unguarded(JsValue::Number(f64::NAN)));
-    }
-
-    // Find the longest valid float prefix
-    let mut num_str = String::new();
-    let mut has_dot = false;
-    let mut has_exp = false;
-    let mut chars = s.chars().peekable();
-
-    // Handle sign
-    if matches!(chars.peek(), Some('-') | Some('+'))
-        && let Some(c) = chars.next()
-    {
-        num_str.push(c);
-    }
-
-    // Parse digits and decimal point
-    while let Some(&c) = chars.peek() {
-        match c {
-            '0'..='9' => {
-                num_str.push(c);
-                chars.next();
-            }
-            '.' if !has_dot && !has_exp => {
-                has_dot = true;
-                num_str.push(c);
-                chars.next();
-            }
-            'e' | 'E' if !has_exp => {
-                has_exp = true;
-                num_str.push(c);
-                chars.next();
-                // Optional sign after exponent
-                if matches!(chars.peek(), Some('-') | Some('+'))
-                    && let Some(sign) = chars.next()
-                {
-                    num_str.push(sign);
-                }
-            }
-            _ => break,
-        }
-    }
-    match num_str.parse::<f64>() {
-        Ok(n) => Ok(Guarded::unguarded(JsValue::Number(n))),
-        Err(_) => Ok(Guarded::unguarded(JsValue::Number(f64::NAN))),
-    }
+    let result = crate::value::parse_float_prefix(string.as_str());
+    Ok(Guarded::unguarded(JsValue::Number(result)))
 }
 
 // Global isNaN - converts argument to number first
